@@ -28,7 +28,7 @@ func phasesFor(prop string) []phaseDef {
 			{"stream", "plain", 120000, 1500000, func(r *Rng, i int) []*Scenario { return genStream(r, "C01", "stream", false, 0.30, 0.08) }},
 			{"stream-knob", "knob", 120000, 1500000, func(r *Rng, i int) []*Scenario { return genStream(r, "C01", "stream-knob", true, 0.30, 0.08) }},
 			{"memory", "plain", 60000, 600000, func(r *Rng, i int) []*Scenario {
-				return []*Scenario{{Property: "C01", Phase: "memory", Doc: genDoc(r, docMax(r))}}
+				return []*Scenario{{Property: "C01", Phase: "memory", Doc: genDocMany(r, docMax(r), 0.01)}}
 			}},
 			{"large", "plain", 800, 16000, func(r *Rng, i int) []*Scenario { return genStreamLarge(r, "C01", "large", 0.2, 0.1) }},
 			{"huge", "plain", 48, 480, func(r *Rng, i int) []*Scenario { return genStreamHuge(r, "C01", "huge", 0.2, 0.1) }},
@@ -52,6 +52,10 @@ func phasesFor(prop string) []phaseDef {
 			{"faulty", "steps", 80000, 600000, func(r *Rng, i int) []*Scenario { return genTotality(r, "faulty") }},
 			{"limit", "steps", 20000, 200000, func(r *Rng, i int) []*Scenario { return genTotality(r, "limit") }},
 			{"cut-enum", "steps", 400, 6000, func(r *Rng, i int) []*Scenario { return genTotalityEnum(r) }},
+			// in-memory parsing has no block-size limit: documents of 1.0-2.4 MiB
+			// with one root block ABOVE the streaming parser's 1 MiB limit (plain
+			// build: a megabyte costs 10^7 yield steps on the counting build)
+			{"memhuge", "plain", 32, 320, func(r *Rng, i int) []*Scenario { return genMemHuge(r) }},
 		}
 	case "C18":
 		return []phaseDef{
@@ -113,7 +117,7 @@ func genStream(r *Rng, prop, phase string, knob bool, pEarly, pErr float64) []*S
 	if r.Chance(0.012) {
 		return genProcfs(r, prop, phase, knob)
 	}
-	doc := genDoc(r, docMax(r))
+	doc := genDocMany(r, docMax(r), 0.01)
 	s := &Scenario{Property: prop, Phase: phase, Doc: doc}
 	pts, _ := deliveryPoints(doc)
 	rs := &ReaderScn{Terminal: r.Pick([]string{"separate", "with-data"}), ExtraCalls: r.Range(1, 4)}
@@ -477,7 +481,13 @@ func genEnumPartitions(r *Rng, prop, phase string) []*Scenario {
 // ---- C04 -------------------------------------------------------------------
 
 func genWalkScn(r *Rng, nblocks int) *WalkScn {
-	ws := &WalkScn{View: r.Pick([]string{"default", "default", "virtual-root", "virtual-root", "reversed", "filtered", "count-only", "child-only", "virtual-mixed", "grafted"})}
+	ws := &WalkScn{View: r.Pick([]string{"default", "default", "virtual-root", "virtual-root", "reversed", "filtered", "count-only", "child-only", "virtual-mixed", "grafted", "grouped"})}
+	switch x := r.Intn(100); {
+	case x < 12:
+		ws.Tree = "prewalked"
+	case x < 18:
+		ws.Tree = "unparsed"
+	}
 	ws.Block = r.Intn(nblocks + 1)
 	ws.HideSeed = r.U64()
 	ws.PreNil = r.Chance(0.08)
@@ -515,7 +525,7 @@ func genTotality(r *Rng, phase string) []*Scenario {
 	if r.Chance(0.2) {
 		maxLen = 2048
 	}
-	doc := genDoc(r, maxLen)
+	doc := genDocMany(r, maxLen, 0.01)
 	// the stream ends at an arbitrary byte: cut the document there
 	if r.Chance(0.5) && len(doc) > 0 {
 		pts, _ := deliveryPoints(doc)
@@ -927,6 +937,14 @@ func evaluate(s *Scenario, st *runStats) (fail *Failure) {
 			st.Outcome = h
 		}
 	case "C04":
+		if s.Phase == "memhuge" {
+			fail = checkC04MemHuge(s)
+			st.Probes["in_memory_parse_of_a_root_block_above_the_streaming_limit"]++
+			st.Logical["bytes_parsed_in_memory"] += int64(len(s.Doc))
+			st.Outcome = mix64(uint64(len(s.Doc)))
+			nontrivial = true
+			break
+		}
 		f, obs := checkC04(s)
 		fail = f
 		st.Logical["reads"] += int64(obs.Reads)
@@ -991,6 +1009,12 @@ func evaluate(s *Scenario, st *runStats) (fail *Failure) {
 				st.Probes["post_nil"]++
 			}
 			st.Probes["view_"+s.Walk.View]++
+			switch s.Walk.Tree {
+			case "prewalked":
+				st.Probes["tree_walked_while_unparsed_then_rewritten"]++
+			case "unparsed":
+				st.Probes["tree_as_delivered_by_NextBlock_never_rewritten"]++
+			}
 			nontrivial = obs.Prunes+obs.Aborts+obs.NestedWalks > 0 || obs.Unwound || s.Walk.View != "default" || s.Walk.PreNil || s.Walk.PostNil
 		}
 	case "C19":
